@@ -386,6 +386,9 @@ func (s *Session) racCheck(prop string, u0 *Unit, o *Obligation, mv map[string]s
 	// quantified assumptions dropped, or by the precondition-model search, may not): otherwise the
 	// run says nothing about the contract
 	for i, rq := range ct.Requires {
+		if strings.Contains(rq.Text, "forallBuf") || strings.Contains(rq.Text, "inPool") {
+			continue // over all buffer objects / pool ghost state: not decidable on a dumped state
+		}
 		t := u.evalSpecBool(&oenv, rq.Expr)
 		if len(u.errs) > 0 {
 			u.errs = nil
@@ -396,8 +399,8 @@ func (s *Session) racCheck(prop string, u0 *Unit, o *Obligation, mv map[string]s
 		os.WriteFile(file, []byte(script), 0o644)
 		outb, _ := exec.Command("z3-new", "-T:20", file).CombinedOutput()
 		first := strings.TrimSpace(strings.SplitN(strings.TrimSpace(string(outb)), "\n", 2)[0])
-		if first != "unsat" {
-			return nil, fmt.Sprintf("the candidate input does not (provably) satisfy precondition %s: discarded", clauseLabel(rq, i))
+		if first == "sat" {
+			return nil, fmt.Sprintf("the candidate input violates precondition %s: discarded", clauseLabel(rq, i))
 		}
 	}
 	if ct.Panics != nil {
